@@ -115,7 +115,7 @@ def show_sp(p):
 FATAL_DEFAULT = {1, 2, 3, 6, 9, 13, 14, 15}
 
 
-def run_real(disp, plan, ops):
+def run_real(disp, plan, ops, patience=1):
     ch = Child(disp, plan)
     p = ch.p
     outs = []
@@ -132,8 +132,8 @@ def run_real(disp, plan, ops):
                     ret = '-' if r is None else str(r)
                 elif name == 'kill':
                     p.kill(int(arg)); ret = 'None'
-                    # signal delivery is asynchronous: give the kernel up to 40 ms to turn the child into a zombie
-                    for _ in range(80):
+                    # signal delivery is asynchronous: give the kernel up to 40 ms (x patience) to turn the child into a zombie
+                    for _ in range(80 * patience):
                         if proc_state(ch.pid) in ('Z', 'X'):
                             break
                         time.sleep(0.0005)
@@ -353,7 +353,7 @@ def popen_and_run(ctx, sigs):
         if st != code:
             common.report(ctx, 'run/exitstatus', 'run(withexitstatus=True) returned %r for exit code %d' % (st, code), dict(code=code))
     for s in ([9, 15] if ctx.quick() else [1, 2, 3, 6, 9, 13, 15]):
-        p = popen_spawn.PopenSpawn([common.PY, '-c', 'import os,signal; os.kill(os.getpid(), %d)' % s])
+        p = popen_spawn.PopenSpawn([common.PY, '-c', 'import os,signal; signal.signal(%d, signal.SIG_DFL); os.kill(os.getpid(), %d)' % (s, s)])
         r = p.wait()
         sigs.add(('popen-wait-signal', s))
         if r != -s or p.exitstatus is not None or p.signalstatus != s:
@@ -380,7 +380,7 @@ def popen_histories(ctx, sigs):
             if plan[0] == 'e':
                 code = 'import sys,time\nsys.stdin.readline()\nsys.exit(%d)' % plan[1]
             else:
-                code = 'import os,sys\nsys.stdin.readline()\nos.kill(os.getpid(), %d)' % plan[1]
+                code = 'import os,sys,signal\nsys.stdin.readline()\nsignal.signal(%d, signal.SIG_DFL)\nos.kill(os.getpid(), %d)' % (plan[1], plan[1])
             p = popen_spawn.PopenSpawn([common.PY, '-c', code])
             fate = plan
             seen = []
@@ -554,8 +554,16 @@ def run(ctx):
             if skip:
                 continue
         real = run_real(d, plan, ops)
-        sigs.add((d, tuple(o.split(':')[0] for o in ops), real.split(' # ')[1]))
         bad = oracle(d, plan, ops, real)
+        if (bad and bad[0] == prop) or (mo is not None and real != mo):
+            # real processes on a loaded machine: a signal may take longer than 40 ms to show its effect.  Re-run patiently;
+            # only what reproduces is judged.
+            for patience in (10, 25):
+                real = run_real(d, plan, ops, patience=patience)
+                bad = oracle(d, plan, ops, real)
+                if not ((bad and bad[0] == prop) or (mo is not None and real != mo)):
+                    break
+        sigs.add((d, tuple(o.split(':')[0] for o in ops), real.split(' # ')[1]))
         if bad and bad[0] == prop:
             common.report(ctx, 'life/%s/%s' % (d or 'normal', '+'.join(o.split(':')[0] for o in ops)[:40]),
                           'child(%s, plan %s) ops %s: %s' % (d or 'normal', plan, ops, bad[1]),
